@@ -32,6 +32,15 @@ impl Cfg {
     }
 }
 
+/// Domains of one config (matrix tier adds the complete 8-bit cube for two representative configs).
+pub fn domains_for(c: &Cfg, tier: Tier) -> Vec<Triples> {
+    let mut d = domains(c.n as u32, tier);
+    if light() && c.n == 8 && !c.wide && ((c.m == MC::BT709 && !c.full) || (c.m == MC::YCgCo && c.full)) {
+        d.push(Triples::Full(8));
+    }
+    d
+}
+
 pub fn configs() -> Vec<Cfg> {
     let mut v = vec![];
     for &(n, wide) in DEPTH_STORAGE.iter() {
@@ -45,6 +54,12 @@ pub fn configs() -> Vec<Cfg> {
 }
 
 pub fn domains(n: u32, tier: Tier) -> Vec<Triples> {
+    if light() {
+        // matrix tier: cross + small lattice everywhere; the complete 8-bit cube is added per config below
+        let k = 1u32 << (n - 8);
+        let b5: Vec<u16> = [0, 16 * k, 128 * k, 240 * k, (1u32 << n) - 1].iter().map(|&c| c as u16).collect();
+        return vec![Triples::Cross(n, b5), Triples::Product(lattice_codes(n, 17))];
+    }
     let full_max = tier.pick(8, 10);
     if n <= full_max {
         vec![Triples::Full(n)]
@@ -143,7 +158,7 @@ pub fn run(tier: Tier) -> Report {
     let mut domain_desc = std::collections::BTreeMap::new();
     for c in &cfgs {
         let l = luts(c.n as u32, c.full);
-        for d in domains(c.n as u32, tier) {
+        for d in domains_for(c, tier) {
             domain_desc.insert(format!("depth {}: {}", c.n, d.describe()), d.len());
             let total = d.len();
             let acc = par_chunks(total, 1 << 16, |acc, lo, hi| {
